@@ -22,7 +22,7 @@
    (they permute the store); nodes being deleted; the ClusterCIDR-deletion half as a measure (its step is proved);
    fairness and timing of the real rate limiter are represented only by Tick.
    Recorded residue: K-AMB. *)
-From NIPAM Require Import Sys Alloc_proofs Sys_proofs Inv_proofs World_proofs Complete_proofs Path_proofs NoPanic_proofs Progress_proofs Conv_proofs Coh_proofs Term_proofs.
+From NIPAM Require Import Sys Alloc_proofs Sys_proofs Inv_proofs World_proofs Complete_proofs Path_proofs NoPanic_proofs Progress_proofs Conv_proofs Coh_proofs Term_proofs Default_proofs ConvCC_proofs.
 From Coq Require Import Lia.
 Open Scope N_scope.
 
@@ -168,3 +168,50 @@ Theorem C11_partial_deleting_clustercidr_is_released_or_busy :
   (w_ccs W2 = w_ccs W /\ w_cfeed W2 = w_cfeed W /\ busy_at m o).
 Proof. exact run_cc_sync_deleting. Qed.
 Print Assumptions C11_partial_deleting_clustercidr_is_released_or_busy.
+
+(* ---------- the ClusterCIDR-deletion half as a measure: ONE round ---------- *)
+(* From a world in which the controller and the informers run and no ClusterCIDR notification is pending, one fair fault-free
+   round -- every ClusterCIDR whose deletion was requested and that still carries the controller's finalizer is fetched, its
+   work item run with a successful write, the resulting notifications delivered -- leads to a world of the same kind in which
+   every such ClusterCIDR that is left is one the controller still sees a dependant of: under its selector there is an entry
+   of its name with an associated node (or its selector cannot be converted).  Every other one has lost the finalizer, i.e.
+   is gone when it carried no other. *)
+Theorem C11_one_round_settles_clustercidr_deletions :
+  forall po lab w, QuietC w ->
+  QuietC (round_c po lab w) /\
+  forall o, In o (w_ccs (round_c po lab w)) -> o_deleting o = true -> has_str finalizer (o_fins o) = true ->
+    busy_in (ctl_of (round_c po lab w)) o.
+Proof.
+  intros po lab w Q. destruct (round_c_settles po lab w Q) as [Q' S]. split; [exact Q'|].
+  intros o Ho Hd Hf. apply S; [exact Ho|]. unfold wants_release. rewrite Hd, Hf. reflexivity.
+Qed.
+Print Assumptions C11_one_round_settles_clustercidr_deletions.
+
+(* non-vacuity: two ClusterCIDRs are being deleted; c (selector k) serves node n1, d (selector l) serves nobody.  The world is
+   quiet; the round removes d and keeps c, whose entry still has n1 associated *)
+Example C11_clustercidr_round_nonvacuous :
+  let po0 : parse_oracle := fun _ => Some [] in
+  let lab0 : label_oracle := fun k => [cl k] in
+  let ops := [UCreateCC (mkCCObj [99] (FOk (mkCidr V4 167772160 27)) FEmpty 4 (Some [107]) [] false 1 0 0);
+              Construct None None [UOk] []; StartInformers; ProcCC UOk;
+              UCreateNode [110;49] [] []; DeliverNode; ProcNode [POk]; DeliverNode; DeliverCC;
+              UCreateCC (mkCCObj [100] (FOk (mkCidr V4 167772416 27)) FEmpty 4 (Some [108]) [] false 1 0 0); DeliverCC; ProcCC UOk; DeliverCC;
+              UDeleteCC [99]; UDeleteCC [100]; DeliverCC; DeliverCC] in
+  let w0 := run po0 lab0 init_world ops in
+  QuietC w0 /\ map o_name (pending w0) = [[99]; [100]] /\
+  map (fun o => (o_name o, o_fins o)) (w_ccs (round_c po0 lab0 w0)) = [([99], [finalizer])].
+Proof.
+  cbv zeta. split; [|split; vm_compute; reflexivity].
+  match goal with |- QuietC (run ?po ?lab init_world ?ops) =>
+    assert (Hwf : Forall wf_op ops) end.
+  { repeat constructor; cbn; try (intros ? E; discriminate E);
+      try (unfold good_obj, good_field, good_range, wf_cidr; cbn; repeat split; try lia; try discriminate; intros [? _]; discriminate). }
+  constructor.
+  - apply run_winv; [apply winv_init|exact Hwf].
+  - apply run_wk; [apply winv_init|intros m E; discriminate E|exact Hwf].
+  - apply run_cohc; [apply cohc_init|repeat constructor].
+  - apply run_cn. unfold CN. cbn. constructor.
+  - eexists. vm_compute. reflexivity.
+  - vm_compute. reflexivity.
+  - vm_compute. reflexivity.
+Qed.
